@@ -18,6 +18,7 @@ def default_params(tier):
     p["reentrant"] = 10   # re-entrant fill family (prog.generate_reentrant)
     p["py_entry"] = 6
     p["max_prefix"] = 3
+    p["includes"] = 10   # 1/10 of the elements / component tags sit in a partial pulled in with {% include %}
     return p
 
 
